@@ -248,3 +248,60 @@ func vhCrashRotate(fault bool) {
 
 func VHarnessCrashRotate() { vhCrashRotate(false) }
 func VHarnessFaultRotate() { vhCrashRotate(true) }
+
+// melt settled internally (a mint quote of this mint carries the same invoice): struck at any point
+func vhCrashMeltInternal(fault bool, c03only bool) {
+	env := vhNewEnv(1)
+	v.Assume(env.m.keysets[env.ids[0]].InputFeePpk == 0)
+	env.hook()
+	raw := env.db.VhRaw()
+	mq := storage.MintQuote{Id: "mintq1", Amount: vhDenoms[0], PaymentRequest: "lnbc-mq1", PaymentHash: "ph-mq1", State: nut04.Unpaid, Expiry: 1}
+	v.Assume(env.db.SaveMintQuote(mq) == nil)
+	q := storage.MeltQuote{Id: "mq1", InvoiceRequest: "lnbc-mq1", PaymentHash: "ph-mq1", Amount: vhDenoms[0], FeeReserve: 0, State: nut05.Unpaid, Expiry: 1}
+	v.Assume(env.db.SaveMeltQuote(q) == nil)
+	in, _, ys := env.balancedRequest()
+	req := nut05.PostMeltBolt11Request{Quote: q.Id, Inputs: in}
+	var res storage.MeltQuote
+	var err error
+	returned := false
+	hit := env.strike(fault, func() { res, err = env.m.MeltTokens(context.Background(), req); returned = true })
+	if hit {
+		v.Reach("struck")
+	} else {
+		v.Reach("not-struck")
+	}
+	spent := v.ZEq(v.SqlCount(raw, "proofs", "y", ys[0]), v.ZU(1))
+	pend := v.ZEq(v.SqlCount(raw, "pending_proofs", "y", ys[0]), v.ZU(1))
+	st, gerr := env.db.GetMeltQuote(q.Id)
+	v.Assume(gerr == nil)
+	mst, merr := env.db.GetMintQuote(mq.Id)
+	v.Assume(merr == nil)
+	if !hit {
+		v.Assert(len(env.ln.Pays) == 0, "C02 a melt of the mint's own invoice is settled internally, nothing is paid over Lightning")
+	}
+	credited := mst.State == nut04.Paid
+	v.Assert(v.Implies(credited, st.State == nut05.Paid), "C03/C07 S2 internal settlement: the mint quote is marked PAID only once the melt that pays it is recorded PAID")
+	v.Assert(v.Implies(credited, v.Or(spent, pend)), "C03/C07 S2 internal settlement: the mint quote is PAID only while the melt's inputs are consumed (spent or still locked)")
+	if !c03only {
+		internal := len(env.ln.Pays) == 0 // (a storage error on the internal-quote lookup makes the mint pay its own invoice over Lightning: allowed)
+		v.Assert(v.Implies(v.And(internal, st.State == nut05.Paid), credited), "C07 A3 internal settlement: a melt recorded PAID has credited the mint quote it pays")
+		v.Assert(v.Implies(v.And(internal, st.State == nut05.Paid), v.And(spent, v.Not(pend))), "C07 A3 internal settlement: the inputs of a melt recorded PAID are spent")
+		v.Assert(v.Implies(v.And(v.Not(spent), v.Not(pend), len(env.ln.Pays) == 0), st.State == nut05.Unpaid), "C07 S1 internal settlement: free inputs belong to an UNPAID melt quote")
+	}
+	if returned && err == nil && res.State == nut05.Paid {
+		v.Reach("settled-internally")
+		if !c03only {
+			v.Assert(v.And(spent, v.Or(credited, len(env.ln.Pays) > 0)), "C07 D1 internal settlement: a PAID response is durable (inputs spent, mint quote PAID)")
+		}
+	}
+	// what the credited quote can be used for afterwards: issuance only if the melt's value is gone for good
+	if credited {
+		out := cashu.BlindedMessages{env.output("out1", 0, 0)}
+		_, ierr := env.m.MintTokens(nut04.PostMintBolt11Request{Quote: mq.Id, Outputs: out})
+		v.Assert(v.Implies(ierr == nil, v.Or(spent, pend)), "C03 the internally settled quote issues only against inputs that are consumed")
+	}
+}
+
+func VHarnessCrashMeltInternal()    { vhCrashMeltInternal(false, false) }
+func VHarnessFaultMeltInternal()    { vhCrashMeltInternal(true, false) }
+func VHarnessFaultMeltInternalC03() { vhCrashMeltInternal(true, true) }
